@@ -70,6 +70,7 @@ def ssParseOp (ws : List String) : Option SsOp :=
     match userIx? u, d.toNat?, o.toNat? with
     | some u, some d, some o => if d ≤ 1 then some (.swap u d o) else none
     | _, _, _ => none
+  | [_, _, _u, "collect"] => some .collect
   | [_, _, u, "withdraw", a] =>
     match userIx? u, a.toNat? with
     | some u, some a => some (.withdraw u a)
